@@ -85,6 +85,7 @@ _RX = [
     ("mysql41", re.compile(r"^\*([0-9a-fA-F]{40})$")),
     ("bsdi_crypt", re.compile(rf"^_({_H}{{4}})({_H}{{4}})({_H}{{11}})$")),
     ("des_crypt", re.compile(rf"^({_H}{{2}})({_H}{{11}})$")),
+    ("fshp", re.compile(r"^\{FSHP(\d+)\|(\d+)\|(\d+)\}([A-Za-z0-9+/]+={0,3})$")),
 ]
 
 
@@ -105,7 +106,7 @@ def extract(s, only=None):
             continue
         try:
             r = _decode(name, m)
-        except (ValueError, IndexError):
+        except (ValueError, IndexError, KeyError):
             r = None
         if r is not None:
             return r
@@ -162,6 +163,13 @@ def _decode(name, m):
         return (name, (h64_int_le(g[0]),), g[1], g[2])
     if name == "des_crypt":
         return (name, (), g[0], g[1])
+    if name == "fshp":
+        variant, ssize, rounds = int(g[0]), int(g[1]), int(g[2])
+        raw = base64.b64decode(g[3] + "=" * (-len(g[3]) % 4))
+        dsize = {0: 20, 1: 32, 2: 48, 3: 64}[variant]  # KeyError -> not an fshp string
+        if len(raw) != ssize + dsize:
+            raise ValueError
+        return (name, (variant, rounds), raw[:ssize], raw[ssize:])
     raise ValueError(name)
 
 
@@ -179,7 +187,7 @@ def extract_hex(s, n):
 
 # cost of a hash string for the policy model: (scheme family) -> integer, or None if the format has no cost
 _COST_FIELD = {"bcrypt": 1, "bcrypt_sha256": 2, "sha256_crypt": 0, "sha512_crypt": 0, "sha1_crypt": 0, "pbkdf2_sha1": 0,
-               "pbkdf2_sha256": 0, "pbkdf2_sha512": 0, "phpass": 0, "scrypt": 0, "django_pbkdf2_sha256": 0, "bsdi_crypt": 0}
+               "pbkdf2_sha256": 0, "pbkdf2_sha512": 0, "phpass": 0, "scrypt": 0, "django_pbkdf2_sha256": 0, "bsdi_crypt": 0, "fshp": 1}
 
 
 def cost_of(s, scheme):
